@@ -16,6 +16,26 @@ PROPS = {
                      "script gas exhaustion and IBC-originated requests are not generated"],
         nt_floor=0.2,
     ),
+    "C03": dict(
+        stages=[dict(test="TestC03Lagrange", pkg="c03", quick=(4, 5000), thorough=(16, 100000), timeout=dict(quick=600, thorough=3300)),
+                dict(test="TestC03Sign", pkg="c03", quick=(16, 120), thorough=(16, 6000), timeout=dict(quick=900, thorough=3400)),
+                dict(test="TestC03LagrangeExhaustive", pkg="c03", thorough=(16, 1), timeout=dict(thorough=3300), no_rapid=True),
+                dict(test="TestC03Chain", quick=(16, 20), thorough=(16, 1200), timeout=dict(quick=900, thorough=3300))],
+        rule="Lagrange: id sets (subsets of 1..20 = table path, ids up to 2^63 and mixed = generic path, permuted) with error probes; non-trivial = "
+             "|S|>=2. Sign (no chain): n 1-24 members with ids from 1..40, threshold, polynomial, committee, message, nonces; 40-50 single-component "
+             "corruptions per case; non-trivial = committee >=2 and >=1 corruption tried. Chain: TSS histories on the real app with corrupted "
+             "MsgSubmitSignature variants (z+1, foreign R, shifted (R+dG,z+d), z of another member, other member id, wrong signer, other message, "
+             "bit flip, non-assigned, duplicate); non-trivial = threshold >=2 and >=1 corruption tried. Thorough adds ALL 10,485,760 (member, subset "
+             "of 1..20) pairs; distinct = hash of case JSON",
+        explanation="independent verifier in ref/ (math/big + decred group ops, challenge layout from the statement, validated against the repo's recorded "
+                    "fixtures): honest shares accepted and equal to the unique reference share; every corruption rejected; combined signature verifies "
+                    "under f(0)G for exactly the message and not for another message/key; t-1 shares never aggregate to a valid signature; on chain, "
+                    "tx accepted <=> reference says correct share of an assigned member first time, and every published Signing.Signature passes the "
+                    "independent verifier",
+        exhaustive=dict(thorough=False),
+        assumptions=["Schnorr soundness and keccak collision resistance assumed", "member ids >= 2^63 are unreachable on chain (ids are 1..size) and only counted"],
+        nt_floor=0.2,
+    ),
     "C05": dict(
         stages=[dict(test="TestC05", quick=(16, 30), thorough=(16, 2000), timeout=dict(quick=900, thorough=3300))],
         rule="case = group (n 2-6, threshold, MaxDESize 3-8, SigningPeriod 1-4, MaxSigningAttempt 1-4, fee) + 10-60 late-bound ops "
@@ -41,6 +61,23 @@ PROPS = {
                     "removed, and no signing WAITING after MaxAttempt*(Period+1)+2 idle blocks",
         assumptions=["tss params are not changed during a history", "liveness is checked as bounded termination"],
         nt_floor=0.05,
+    ),
+    "C11": dict(
+        stages=[dict(test="TestC11Encode", pkg="c11", quick=(8, 12000), thorough=(16, 600000), timeout=dict(quick=600, thorough=3300)),
+                dict(test="TestC11Tick", pkg="c11", quick=(4, 8000), thorough=(16, 200000), timeout=dict(quick=600, thorough=3300)),
+                dict(test="TestC11TickExhaustive", pkg="c11", thorough=(16, 1), timeout=dict(thorough=3300), no_rapid=True)],
+        rule="Encode: originators (direct/tunnel; empty, delimiter-like, long fields), times, signing ids and contents of every kind (oracle result "
+             "proto/full ABI/partial ABI, feeds prices fixed-point/tick ABI, tunnel packet, transition, text) run through the real handlers, plus a "
+             "second request differing in exactly one field; non-trivial = oracle payload with non-empty result or feeds/tunnel payload with >=2 "
+             "prices. Tick: prices at floor/ceil of every sampled tick boundary +-1, fixed values and log-uniform values; non-trivial = p within one "
+             "price unit of a boundary. Thorough adds EVERY tick of the supported range with the four boundary prices; distinct = hash of case JSON",
+        explanation="reference layout written from the statement (keccak(originator)|u64 time|u64 id|content, tags = keccak(name)[:4], hand-written ABI and "
+                    "proto encoders), round trip through go-ethereum abi / proto decoders with independently declared types, injectivity under single-"
+                    "field change, pairwise distinct tags, internal kinds flagged; tick T must satisfy price(T) <= p < price(T+1) against a 384-bit "
+                    "big.Float reference with a 2^-64 relative guard band",
+        assumptions=["keccak collision resistance", "comparisons closer than 2^-64 relative to a tick boundary are skipped and counted",
+                     "on-chain layer (Signing.Message parsed back against stores) is exercised by the TSS histories of C05/C08"],
+        nt_floor=0.2,
     ),
     "C12": dict(
         stages=[dict(test="TestC12", pkg="c12", quick=(16, 6), thorough=(16, 400), timeout=dict(quick=900, thorough=3300)),
@@ -69,6 +106,21 @@ PROPS = {
                      "governance (free) requests and incoming-group signings are exercised under C18"],
         nt_floor=0.2,
     ),
+    "C15": dict(
+        stages=[dict(test="TestC15Pure", pkg="c15", quick=(8, 15000), thorough=(16, 600000), timeout=dict(quick=600, thorough=3300)),
+                dict(test="TestC15Chain", pkg="c15", quick=(16, 14), thorough=(16, 1200), timeout=dict(quick=900, thorough=3300))],
+        rule="Pure: CheckMissReport inputs with each of the five clocks (grace after activation, grace after feed-list update, price age, and the two "
+             "block-height fallbacks) placed at -1/0/+1 of its boundary; non-trivial = tightest clock within one unit of its boundary. Chain: "
+             "timelines on the real app (3-5 validators, expiration 1-5 blocks, penalty 0-600 s, grace 1-60 s, dt in {0,1,3,30,100,1000} s; "
+             "activate incl. too early, request, report/no report, submit prices/skip); non-trivial = a deactivation decision within one unit of "
+             "a boundary; distinct = hash of case JSON",
+        explanation="one-directional, as stated: IsActive flips to false only if the reference predicate (written from the statement) says a genuine "
+                    "miss happened in that block; MsgActivate succeeds only for an inactive validator whose penalty elapsed; a diligent validator "
+                    "is never deactivated; nobody is active without an explicit activation. Converses are counted only.",
+        assumptions=["price age pinned strict (ts + interval < now is a miss), 'active before the request' strict; exact end of grace/penalty accepts both outcomes",
+                     "whole-second block times; validators always bonded"],
+        nt_floor=0.2,
+    ),
     "C17": dict(
         stages=[dict(test="TestC17", pkg="c17", quick=(16, 25), thorough=(16, 2500), timeout=dict(quick=900, thorough=3300))],
         rule="case = tunnel params (multi-denom MinDeposit, base fee), 3 accounts, 20-60 late-bound ops (create/deposit/withdraw/activate/"
@@ -79,6 +131,80 @@ PROPS = {
                     "active => total >= min, IsActive <=> active index <=> processed at end block, rejected ops change nothing",
         assumptions=["no packet is ever sent successfully (no signing group / IBC channel), so TotalFees stays 0",
                      "end-block deactivation for an unfunded fee payer is outside the statement and only counted"],
+        nt_floor=0.2,
+    ),
+    "C07": dict(
+        stages=[dict(test="TestC07", pkg="c07", quick=(16, 25), thorough=(16, 2500), timeout=dict(quick=900, thorough=3300))],
+        rule="case = 2-5 voters (delegations + restaked coins, 25% 'rich' with 2^66 of an 18-decimals token), feeds params (threshold, min/max "
+             "interval, MaxCurrentFeeds 1-5, update interval 1-5) and a list of late-bound ops: votes with symbolic powers (threshold*k+-1, remaining "
+             "power +-1, 2^62/2^63-1 constants, int64-wrapping combinations, empty/duplicate/too many signals), re-votes, delegate/undelegate/"
+             "stake/unstake, block ends across update blocks; non-trivial = >=1 accepted re-vote changing >=2 signals AND >=1 vote whose true sum is "
+             "within 1 of the voter's power or above int64; distinct = hash of case JSON",
+        explanation="big.Int reference model: accepted vote => mathematical sum <= voter power (no wrap-around acceptance); after every block Vote "
+                    "store == model, feeds lock == sum, SignalTotalPower == sum over standing votes (from store and from model), by-power index "
+                    "has exactly one entry per non-zero total; at update blocks CurrentFeeds == reference top-N (power >= threshold, interval "
+                    "max(min, max/floor(power/step))); withdrawals below the lock rejected",
+        assumptions=["no slashing (rate-1 validators)", "rejections of affordable votes are counted, not flagged"],
+        nt_floor=0.1,
+    ),
+    "C14": dict(
+        stages=[dict(test="TestC14", pkg="c14", quick=(16, 20), thorough=(16, 1800), timeout=dict(quick=900, thorough=3300))],
+        rule="case = 1-8 validators (powers 1..10^12, absent sets, proposer), oracle/bandtss reward percentages 0..100, community tax in {0,0.02,0.5,1,"
+             "random}, multi-denom fee pool (0,1,2, primes, 10^18), 0-6 current-group members with activity and nonce flags (+ foreign members), "
+             "2-6 measured blocks with activations and member ops; non-trivial = a stage ran with a non-zero share that has >=2 denoms or >=2 "
+             "recipients and a non-divisible amount; distinct = hash of case JSON",
+        explanation="math/big fixed-point reference of the three stages (oracle share -> bandtss share -> SDK distribution) compared per block with "
+                    "bank balances, distribution outstanding rewards, community pool and supply: supply unchanged, balance deltas sum to zero, "
+                    "distribution account backs its books, stage shares == floor(pool*pct), per-validator and per-member amounts exact, inactive "
+                    "validators / ineligible members get nothing",
+        assumptions=["mint off; commission 0; the SDK distribution stage is modelled as trusted base", "percentages > 100 are outside the quantifier (C02)"],
+        nt_floor=0.2,
+    ),
+    "C08": dict(
+        stages=[dict(test="TestC08", quick=(16, 25), thorough=(16, 2000), timeout=dict(quick=900, thorough=3300))],
+        rule="case = TSS group present/absent, initial nonces 0-12, fee per signer, base packet fee (multi-denom), signing period, and 12-50 ops "
+             "(create TSS/IBC tunnel with 1-3 signals and soft/hard deviations, fund fee payer at k*fee+{-1,0,1}, validator price moves placed "
+             "at old*(1+-bps/10^4)+{-1,0,1} / zero / unsupported / unavailable, manual trigger by creator or stranger, activate/deactivate, "
+             "nonce top-up/drain, end block with dt 0-30s); non-trivial = >=1 deviation-triggered packet AND >=1 interval packet AND >=1 failed "
+             "send or unfunded deactivation; distinct = hash of case JSON",
+        explanation="reference trigger rule in big.Int (sendAll iff now >= lastFull + interval; else any signal with dev >= hard, carrying dev >= soft; "
+                    "old=0,new!=0 is infinite) plus an exact running model of fee-payer/module balances, sequence, remembered prices, nonce queues "
+                    "and member activity; for every active tunnel each block the outcome (packet / failed attempt / unfunded deactivation / "
+                    "nothing) must equal the reference outcome, and after every block sequence, packets 1..seq (no gap, none beyond), remembered "
+                    "prices, last full send, fees recorded and all balances must equal the model (a failed send leaves nothing behind)",
+        assumptions=["feeds prices are read from the Price store after the block (C06 decides how they are computed)",
+                     "IBC route is used only as a failure source (no live channel); fixed-point encoder only",
+                     "tunnel-created signings are never signed, so time-outs/deactivations provide the 'members unavailable' fault"],
+        nt_floor=0.05,
+    ),
+    "C19": dict(
+        stages=[dict(test="TestC19", pkg="c19", quick=(16, 30), thorough=(16, 1500), timeout=dict(quick=900, thorough=3300),
+                     crash_is_violation=True)],
+        rule="case = sim chain with 1-4 validators and 1-4 data sources whose executables are 1..4096 bytes (incl. < 32), 1-3 transactions of "
+             "1-3 requests with 1-6 raw requests (repeated sources), selection of the validator decided by the chain, RPC stub with injected "
+             "transient/permanent failures, executor stub with drawn outcome/delay per raw request, cache hit/miss, entry via handleRequest or "
+             "handleTransaction, order/GOMAXPROCS perturbation; non-trivial = a processed request selecting the validator with >=2 raw requests "
+             "AND >=1 injected failure actually served; distinct = hash of case JSON",
+        explanation="after quiescence: exactly one MsgReportData per request selecting the validator (none otherwise), one raw report per external "
+                    "id, exit code/output == stubbed outcome or 255 on load/executor failure, ValidateBasic and the chain's CheckValidReport accept "
+                    "it; each case is journalled before execution so a daemon panic (process death) yields the crashing case as replay",
+        assumptions=["goroutine interleavings are perturbed, not enumerated", "SubmitReport/broadcast loop outside the statement",
+                     "when /store queries fail max-try times the daemon gives up on the request; counted (store-exhausted), not flagged"],
+        nt_floor=0.2,
+    ),
+    "C20": dict(
+        stages=[dict(test="TestC20Loop", pkg="c20", quick=(16, 14), thorough=(16, 1200), timeout=dict(quick=900, thorough=3400)),
+                dict(test="TestC20Submit", pkg="c20", quick=(8, 250), thorough=(16, 12500), timeout=dict(quick=600, thorough=3300))],
+        rule="Loop: closed loop in virtual time (200-600 s, 1 s polling with drawn phase) between the real signaller step and the real feeds module on a "
+             "sim chain: price-service streams with status flips and moves at old*(1+-dev)+{-1,0,1}, feed-list changes by votes, drawn block-time "
+             "offsets in [-3 s,+0.9 s], lost/failed submissions; non-trivial = >=1 status-change, >=1 deviation-triggered and >=1 slot-triggered "
+             "submission. Submit: submitPrice against RPC stubs with 10 drawn failure kinds; non-trivial = >=1 injected failure; distinct = hash of case JSON",
+        explanation="(1) every landed submission is accepted by the real MsgSubmitSignalPrices handler; (2) the validator is never deactivated for a signal "
+                    "the price service kept serving; (3) integer reference predicate (status change or deviation >= threshold, past cooldown+buffer, not "
+                    "in flight) => the step emits the signal; (4) nothing in flight is emitted again, pending set == harness in-flight set; Part B: after "
+                    "every outcome the pending set is released and the key is back in the idle pool",
+        assumptions=["shipped timing configuration enforced by construction (slot 50-80%, polling 1 s, latency below the slack)",
+                     "VerifStep mirrors the glue of Start()/execute(); decision logic is production code", "float64 deviation: +-1 bps band for prices >= 2^39"],
         nt_floor=0.2,
     ),
     "C09": dict(
